@@ -58,6 +58,50 @@ func runC09(p *Prog, r *Report, tier string) {
 		fmt.Sprintf("%d write call sites in %d functions (the IPFIX and the JSON send)", len(writeCalls), len(writers)),
 		fmt.Sprintf("expected exactly the IPFIX and JSON send sites, found %d write calls in %d functions: an additional writer can emit bytes that bypass the checks", len(writeCalls), len(writers)), true)
 
+	// a failed Write is never reported as success: in a writer, a return with a nil error is reached only where the error
+	// result of the Write itself is known to be nil (not a variable that some path reset to nil). "The template was sent"
+	// (and may be registered) must mean that the socket accepted it.
+	for _, wc := range writeCalls {
+		w, ok := wc.(*ssa.Call)
+		if !ok {
+			continue
+		}
+		f := w.Parent()
+		var werr ssa.Value
+		for _, e := range extractOf(w, 1) {
+			werr = e
+		}
+		if werr == nil {
+			r.Violation("R-ERR.write-error", fnKey(f)+": error of connToCollector.Write", p.instrPos(w), "the error result of Write is dropped: a failed send is reported as success")
+			continue
+		}
+		n := 0
+		eachInstr(f, func(in ssa.Instruction) {
+			rt, ok := in.(*ssa.Return)
+			if !ok || !reachable(w, in, nil) {
+				return
+			}
+			isNil, has := retErrNil(rt)
+			if !has || !isNil {
+				return
+			}
+			n++
+			okNil := false
+			for _, fct := range blockFacts(in.Block()) {
+				if fct.X == werr && fct.Op == token.EQL {
+					if c, ok := fct.Y.(*ssa.Const); ok && c.IsNil() {
+						okNil = true
+					}
+				}
+			}
+			// a writer that loops over records (JSON) returns success after the loop: then every Write's error edge must return an error
+			if !okNil && inLoop(w.Block()) {
+				okNil = errEdgeReturns(werr)
+			}
+			r.Check(okNil, "R-ERR.write-error", fmt.Sprintf("%s: success return #%d after the Write", fnKey(f), n), p.instrPos(in), "reached only where Write's own error is nil",
+				"success is returned on a path where the Write's error is not known to be nil (the error was overwritten or tolerated): a message that never left the host counts as sent - its template gets registered and data for it is transmitted later", true)
+		})
+	}
 	// send calls inside SendSet: calls to functions that (transitively) write
 	isSender := func(f *ssa.Function) bool {
 		for w := range g.reach(f) {
